@@ -109,6 +109,21 @@ pub fn families(s: &Session, g: &mut Gen) -> Vec<(&'static str, Call)> {
             Op::CreateTable { name: stale.clone(), cols: kv("x") },
         ),
     ));
+    // ---- a value of the wrong type that is spelled like a member of the column's enumeration
+    {
+        let et = format!("Enum{}", tok);
+        let prep = vec![
+            Op::CreateTable {
+                name: et.clone(),
+                cols: vec![ColDef::new("K", CT::Int16).key(), ColDef::new("E", CT::Int16).nullable().enums(&["1", "2", "3"]), ColDef::new("S", CT::Str(8)).nullable().enums(&["7", "x"])],
+            },
+            Op::Insert { table: et.clone(), rows: vec![vec![V::Int(1), V::Int(1), V::s("x")], vec![V::Int(2), V::Int(2), V::s("7")], vec![V::Int(3), V::Null, V::Null]] },
+        ];
+        out.push(("insert/string-member-of-int-enum", Call::Prepared(prep.clone(), Op::Insert { table: et.clone(), rows: vec![vec![V::Int(4), V::s("2"), V::Null]] })));
+        out.push(("update/string-member-of-int-enum", Call::Prepared(prep.clone(), Op::Update { table: et.clone(), sets: vec![("E".into(), V::s("2"))], cond: None })));
+        out.push(("insert/int-member-of-string-enum", Call::Prepared(prep.clone(), Op::Insert { table: et.clone(), rows: vec![vec![V::Int(4), V::Null, V::Int(7)]] })));
+        out.push(("update/int-member-of-string-enum", Call::Prepared(prep, Op::Update { table: et.clone(), sets: vec![("S".into(), V::Int(7))], cond: None })));
+    }
     // ---- drop_table
     out.push(("drop/unknown", c(Op::DropTable { name: fresh.clone() })));
     out.push(("drop/reserved", c(Op::DropTable { name: "_Validation".into() })));
@@ -441,12 +456,8 @@ pub fn run(ctx: &Ctx) -> Report {
         let mut rep = Report::new();
         match w["kind"].as_str() {
             Some("capacity") => {
-                let which = match (w["limit"].as_str(), w["mode"].as_str()) {
-                    (Some("rows-65536"), _) => 0,
-                    (_, Some("one-batch")) => 1,
-                    _ => 2,
-                };
-                crate::props::c20::capacity_for_c04(which, &mut rep);
+                let which = crate::props::c20::which_of(w["limit"].as_str(), w["mode"].as_str());
+                crate::props::c20::capacity_for("C04", which, &mut rep);
             }
             Some("state") => run_case(w["seed"].as_u64().unwrap_or(ctx.seed), w["case"].as_u64().unwrap_or(0), &mut rep),
             Some("isolated") => run_family_isolated(
@@ -465,9 +476,9 @@ pub fn run(ctx: &Ctx) -> Report {
     let mut rep = parallel(ctx.threads, |shard, n| {
         let mut rep = Report::new();
         // refused calls at the capacity limits (row limit, full pool, nearly full pool)
-        for which in 0..3 {
-            if (n >= 3 && shard == which) || (n < 3 && shard == 0) {
-                crate::props::c20::capacity_for_c04(which, &mut rep);
+        for (i, which) in [0usize, 1, 2, 5].into_iter().enumerate() {
+            if (n >= 4 && shard == i) || (n < 4 && shard == 0) {
+                crate::props::c20::capacity_for("C04", which, &mut rep);
             }
         }
         let mut k = 0usize;
